@@ -13,7 +13,7 @@ contract(LS + '.__init__', props=['C17', 'C06'], params={'parent': 'LabelScope?'
          modifies=['self._type', 'self._parent', 'self._reference', 'self._labels'], allocates=True)
 
 # every file gets a scope of its own, directly under the scope it is given (the global scope for the main file)
-contract(AF + '.__init__', props=['C17'], params={'parent_label_scope': 'LabelScope?'},
+contract(AF + '.__init__', props=['C17', 'C06'], params={'parent_label_scope': 'LabelScope?'},
          ensures=['self._filename == filename', 'fresh(self._label_scope)',
                   'self._label_scope._type == LabelScopeType.FILE', 'self._label_scope._parent is parent_label_scope',
                   'domain_empty(self._label_scope._labels)'],
@@ -40,7 +40,7 @@ contract(AF + '.load_line_objects', name='abs:AssemblyFile.load_line_objects', p
          allocates=True, no_frame_check=True)
 
 INC_PARAMS = dict(LOAD_PARAMS, line_str='str')
-contract(AF + '._handle_include_file', props=['C17'], params=INC_PARAMS, returns='list[LineObject]',
+contract(AF + '._handle_include_file', props=['C17', 'C06'], params=INC_PARAMS, returns='list[LineObject]',
          requires=['allocated(self._label_scope)', 'implies(condition_stack is not None, cs_wf(condition_stack))'],
          # (AttributeError: the regular expression is opaque here, so group(1) of a match is not known to be present)
          may_raise={'SystemExit': 'True', 'AttributeError': 'True'},
